@@ -17,6 +17,7 @@ import CaddyModel.C07.ListingLemmas
 import CaddyModel.C07.GlobLemmas
 import CaddyModel.C07.GlobFuel
 import CaddyModel.C07.Pool
+import CaddyModel.C07.RedirectLemmas
 import CaddyModel.C07.Witness
 
 namespace CaddyModel.C07
@@ -186,7 +187,7 @@ theorem otherwise_not_found_or_passthru (fs : FS) (c : Cfg) (path orig : Bytes) 
     (∃ p id, (serve fs c path orig).1 = .file p id ∧ UnderS c.rootC p ∧ c.hidden p = false ∧ fs p = .file id) ∨
     (∃ p id enc, (serve fs c path orig).1 = .sidecar p id enc) ∨
     (∃ p ns, (serve fs c path orig).1 = .listing p ns ∧ UnderS c.rootC p ∧ c.hidden p = false) ∨
-    (serve fs c path orig).1 = .redirect ∨
+    (∃ l, (serve fs c path orig).1 = .redirect l) ∨
     ((serve fs c path orig).1 = .notFound ∧ c.passThru = false) ∨
     ((serve fs c path orig).1 = .passThru ∧ c.passThru = true) := by
   have hj := serve_justified fs c path orig hfs
@@ -194,7 +195,7 @@ theorem otherwise_not_found_or_passthru (fs : FS) (c : Cfg) (path orig : Bytes) 
   | file p id => rw [ho] at hj; exact Or.inl ⟨p, id, rfl, hj⟩
   | sidecar p id enc => exact Or.inr (Or.inl ⟨p, id, enc, rfl⟩)
   | listing p ns => rw [ho] at hj; exact Or.inr (Or.inr (Or.inl ⟨p, ns, rfl, hj.1, hj.2.1⟩))
-  | redirect => exact Or.inr (Or.inr (Or.inr (Or.inl rfl)))
+  | redirect l => exact Or.inr (Or.inr (Or.inr (Or.inl ⟨l, rfl⟩)))
   | notFound => rw [ho] at hj; exact Or.inr (Or.inr (Or.inr (Or.inr (Or.inl ⟨rfl, hj⟩))))
   | passThru => rw [ho] at hj; exact Or.inr (Or.inr (Or.inr (Or.inr (Or.inr ⟨rfl, hj⟩))))
   | forbidden =>
@@ -320,6 +321,44 @@ example : (92 : UInt8) ∉ str "a*b[c-d]?^-]" := by decide
 example : globMatch (globSafe (str "a*b[c-d]?")) (str "a*b[c-d]?") = some true := by decide
 example : globMatch (globSafe (str "a*")) (str "ab") = some false := by decide
 example : globMatch (str "a*") (str "ab") = some true := by decide
+
+/-! ## the canonical-URI redirect -/
+
+/-- **redirect_location_same_origin.** The `Location` of every canonical redirect (trailing slash
+    added for a directory or an index file, removed for a file; from `ServeHTTP` and from
+    `serveBrowse`) starts with exactly one `/`: whatever the original request path and query are
+    (`//evil.example/dir`, bytes `url.Parse` rejects, `#`, `?`, non-ASCII), the client is sent to a
+    path on the same origin, never to a scheme-relative `//host` reference.  `some l`: the
+    original path is rooted, as every origin-form request target is; `orig ≠ "/"`: removing the
+    slash of `/` itself (the site root being a regular file) yields a relative reference that
+    depends on the rewritten path — not covered. -/
+theorem redirect_location_same_origin (fs : FS) (c : Cfg) (path orig l : Bytes)
+    (h : (serve fs c path orig).1 = .redirect (some l)) (hne : orig ≠ [slash]) : SingleSlashStart l := by
+  have hshape := serve_redirect fs c path orig (some l) h
+  have hroot : isRooted orig = true := by
+    cases hr : isRooted orig with
+    | true => rfl
+    | false => rcases hshape with e | ⟨e, _⟩ <;> simp [locationOf, hr] at e
+  obtain ⟨t, rfl⟩ : ∃ t, orig = slash :: t := by
+    cases orig with
+    | nil => simp [isRooted] at hroot
+    | cons a t => simp [isRooted] at hroot; exact ⟨t, by rw [hroot]⟩
+  rcases hshape with e | ⟨e, hs⟩
+  · simp only [locationOf, hroot, if_true, Option.some.injEq] at e
+    rw [e]; exact goRedirect_single _ _ _ (by simp)
+  · simp only [locationOf, hroot, if_true, Option.some.injEq] at e
+    rw [e]
+    apply goRedirect_single
+    cases t with
+    | nil => exact absurd rfl hne
+    | cons a t' => simp [List.dropLast]
+
+-- a directory requested as `//evil.example/sub` (original path), no trailing slash
+example : (serve wFS2 { wCfg2 with index := [], query := str "a=//x" } (str "/sub") (str "//evil.example/sub")).1
+    = .redirect (some (str "/evil.example/sub/?a=//x")) := by decide
+-- bytes `url.Parse` rejects: the target is passed through, minus the doubled slash
+example : goRedirect (str "/") (redirectTo (str "//%zz/") []) = str "/%zz/" := by decide
+example : stripDoubleSlash (str "////a//b") = str "/a//b" := by decide
 
 /-! ## request sequences: the pooled render buffer -/
 
